@@ -8,6 +8,11 @@ Stages
                   live row/col/val/key entries) is compared, at the end the complete live entries; the property oracle
                   (sum by key of the events = live entries, keys strictly increasing, row/col of each key) is evaluated
                   on the implementation's final state independently of the model
+                  long pure runs (300-900 events: one or two cells at limit < capacity = deep level stacks; all keys
+                  distinct = repeated coo_increase_mem of both arrays; few keys at capacity <= limit = depth <= 3 for ever;
+                  alternating blocks) with driver-shaped |min| exercise the region of C04_acc_total_volume beyond
+                  C04_acc_total, and the consequences of its invariant (level counter <= 4*(F+1), F <= 2*#events/limit,
+                  F = 0 while capacity <= limit) are evaluated on the implementation's trace
   real threshold  the same kernels at the library's own COO_QUICKSORT_LIMIT on generated streams, oracle only
   API level       Token / TimedToken / MultiSet / Ngram co-occurrence vectorizers x n_threads x coo_initial_memory x
                   NUMBA_NUM_THREADS x corpus sizes x {fit_transform, fit(small).transform(50x larger)}: compared with
@@ -64,6 +69,115 @@ def gen_state_case(rng, L):
             ops += [["s"], ["m"]]
     ops += [["s"], ["m"]]
     return {"limit": L, "cap": cap, "mlen": mlen, "nk": nk, "ops": ops}
+
+
+# ---- data volume (Proofs/K01_CooAcc_volume.v): long pure runs (appends, then the drivers' final pair) that leave the
+# ---- region of C04_acc_total (2 * #events + 2 < 2^(|min| - 1)) but stay inside C04_acc_total_volume / _few_keys
+def grow_min_size(n):
+    return int(round(1.5 * (n + 2)))          # python's round is half-to-even, like np.round
+
+
+def proved_region(c):
+    """Which array-level theorems cover the run `appends; sum; merge_all` of this case (None if it is not a pure run)."""
+    ops = c["ops"]
+    if [o[0] for o in ops[-2:]] != ["s", "m"] or any(o[0] != "a" for o in ops[:-2]):
+        return None
+    L, cap, mlen = c["limit"], c["cap"], c["mlen"]
+    nev = len(ops) - 2
+    keys = {o[4] for o in ops[:-2]}
+    out = []
+    if 2 * nev + 2 < 2 ** (mlen - 1):
+        out.append("C04_acc_total")
+    M = grow_min_size(mlen) if cap <= L else mlen
+    if mlen >= 4 and 8 * nev + 6 * L < L * 2 ** (M - 1):
+        out.append("C04_acc_total_volume")
+    if mlen >= 4 and 20 <= cap <= L and 20 * len(keys) < 19 * cap:
+        out.append("C04_acc_total_few_keys")
+    return out
+
+
+def volume_budget(L, cap, mlen):
+    """Largest event count allowed by C04_acc_total or C04_acc_total_volume."""
+    M = grow_min_size(mlen) if cap <= L else mlen
+    new = (L * 2 ** (M - 1) - 6 * L - 1) // 8 if mlen >= 4 else 0
+    old = (2 ** (mlen - 1) - 3) // 2
+    return max(old, new)
+
+
+def gen_volume_case(rng, L):
+    # a buffer at most `limit` long needs limit >= 20 (capacity >= 20): the compact regime exists at limit 64 only
+    shape = rng.choice(["deep", "growth", "growth", "mixed", "compact", "compact"] if L >= 20 else
+                       ["deep", "deep", "growth", "growth", "mixed"])
+    if shape == "compact":
+        cap = rng.choice([20, 21, rng.randint(20, L), L - 1, L])
+    elif L >= 20 and shape == "growth" and rng.random() < 0.6:
+        cap = rng.choice([20, 32, rng.randint(20, L), L])            # starts at most `limit` long, grows past it
+    else:
+        cap = max(20, rng.choice([L + 1, L + 2, L + rng.randint(3, 40), 2 * L + rng.randint(0, 9), 32, 33]))
+        if cap <= L:
+            cap = L + 1 + rng.randint(0, 20)
+    mlen = 2 * ceil_log2(cap) + rng.choice([0, 0, 0, 1])             # as the drivers allocate it (+ rarely a spare slot)
+    budget = volume_budget(L, cap, mlen)
+    old = (2 ** (mlen - 1) - 3) // 2                                   # what C04_acc_total covers
+    if budget > old and rng.random() < 0.7:
+        nev = min(budget, old + rng.randint(1, 400), 1300)            # just beyond C04_acc_total
+    else:
+        nev = min(budget, rng.choice([rng.randint(260, 420), rng.randint(300, 700), rng.randint(500, 900)]))
+    evs = []
+    if shape == "deep":                  # one or two cells: `ind` stays tiny, no flush reaches the merge_all test
+        nk = rng.choice([1, 1, 2])
+        for _ in range(nev):
+            cc = rng.randrange(nk)
+            evs.append((0, cc, rng.randint(1, 3), cc))
+    elif shape == "growth":              # (almost) all keys distinct: flushes consume the buffer, it grows repeatedly
+        mul = nev + 1
+        dup = rng.choice([0.0, 0.0, 0.1])
+        for i in range(nev):
+            k = rng.randrange(i + 1) if rng.random() < dup else i
+            evs.append((k // 37, k % 37, rng.randint(1, 3), k % 37 + 38 * (k // 37)))
+    elif shape == "compact":             # fewer distinct keys than 0.95 * capacity, capacity <= limit: never grows
+        nkeys = rng.choice([1, 2, (19 * cap - 1) // 20, rng.randint(1, (19 * cap - 1) // 20)])
+        for _ in range(nev):
+            k = rng.randrange(nkeys)
+            evs.append((k // 7, k % 7, rng.randint(1, 3), k % 7 + 8 * (k // 7)))
+    else:                                # blocks of fresh keys alternate with blocks of repeats of a few keys
+        i, fresh = 0, 0
+        while i < nev:
+            blk = rng.randint(1, 3 * L + 5)
+            rep = rng.random() < 0.5
+            for _ in range(min(blk, nev - i)):
+                if rep:
+                    k = rng.randrange(rng.choice([1, 2, 5]))
+                else:
+                    k, fresh = 10 + fresh, fresh + 1
+                evs.append((k // 37, k % 37, rng.randint(1, 3), k % 37 + 38 * (k // 37)))
+                i += 1
+    ops = [["a", r, cc, v, k] for (r, cc, v, k) in evs] + [["s"], ["m"]]
+    c = {"limit": L, "cap": cap, "mlen": mlen, "nk": len({e[3] for e in evs}), "ops": ops, "vol": shape}
+    assert proved_region(c), (L, cap, mlen, nev, shape)
+    return c
+
+
+def volume_invariant(c, obs):
+    """Consequences of the invariant VInv of Proofs/K01_CooAcc_volume.v on a pure run inside its region, evaluated on
+    the observations after every op: level counter = sum of 2^j over the occupied levels j < depth,
+    F = #flushes not followed by merge_all <= 2 * #events / limit, counter <= 4 * (F + 1), 2^(depth-1) <= 4 * (F + 1);
+    while capacity <= limit: F = 0, i.e. counter <= 4 and depth <= 3.  (After the final coo_sum_duplicates, before
+    merge_all, one more unit.)  Returns (problem | None, max depth, max counter)."""
+    L = c["limit"]
+    E, maxd, maxc = 0, 0, 0
+    for j, (o, ob) in enumerate(zip(c["ops"], obs)):
+        ind, depth, cap, mlen, mv = ob[0], ob[1], ob[2], ob[3], ob[4]
+        if o[0] == "a":
+            E += 1
+        cnt = sum(2 ** q for q in range(depth) if mv[q] > 0)
+        F = 0 if cap <= L else (2 * E) // L
+        bound = 4 * (F + 1) + (1 if o[0] == "s" else 0)
+        maxd, maxc = max(maxd, depth), max(maxc, cnt)
+        if cnt > bound or (depth > 0 and 2 ** (depth - 1) > bound) or not (depth < mlen):
+            return ("after op %d: level counter %d, depth %d, |min| %d, capacity %d; bound 4*(F+1) = %d with F <= %d (%d events, limit %d)"
+                    % (j, cnt, depth, mlen, cap, bound, F, E, L)), maxd, maxc
+    return None, maxd, maxc
 
 
 STATE_CORPUS = [
@@ -449,8 +563,9 @@ def run(ctx, replay=None):
         "flat kernel, fixed window radii, normalize_windows=False at API level (integer counts); other kernels are C03's",
         "numpy's unstable argsort is modelled by a stable sort: only the live entries are compared (the stale region is "
         "irrelevant under the repaired flush rule)",
-        "the state-level generator stays inside the region of C04_acc_total (capacity >= 20, |min| >= 2*ceil(log2 cap)); "
-        "cases on which the model predicts an out-of-bounds access are reported, not executed",
+        "the state-level generator stays inside the region of C04_acc_total or C04_acc_total_volume / _few_keys "
+        "(capacity >= 20, |min| >= 2*ceil(log2 cap), event budget per sort window); a case on which the model predicts an "
+        "out-of-bounds access is reported as a correspondence failure",
         "OS thread interleavings are whatever the machine produces (thread counts are explicit)",
         "timed/multiset corpora contain no empty document (their pre-processing cannot represent one)",
         "harness memoises vectorizers.utils.make_tuple_converter per n-gram size in the child (compilation time only)",
@@ -462,6 +577,10 @@ def run(ctx, replay=None):
     state_cases = {L: [dict(c, limit=L) for c in STATE_CORPUS if c["limit"] == L] for L in LIMITS}
     for L in LIMITS:
         state_cases[L] += [gen_state_case(ctx.rng, L) for _ in range(n_state)]
+    # below limit 5 the volume budget at |min| = 10..14 is inside C04_acc_total's: fewer long runs there
+    n_vol = {1: 2, 2: 2, 3: 2, 4: 3, 5: 7, 8: 7, 16: 8, 64: 9}
+    for L in LIMITS:
+        state_cases[L] += [gen_volume_case(ctx.rng, L) for _ in range(n_vol.get(L, 4) * (1 if ctx.quick else 4))]
     groups = API_CORPUS + [g for g in gen_api_groups(ctx) if timed_ok(g)]
     big_cases = []
     if not ctx.quick:
@@ -535,6 +654,8 @@ def model_obs(v):
 
 def check_state(ctx, state_cases, model, state_res, deaths):
     n_cmp, n_ops, bad_corr, n_fault, failures = 0, 0, [], 0, []
+    vol = {"pure_runs_in_volume_region": 0, "beyond_C04_acc_total": 0, "few_keys_region": 0, "invariant_checked_ops": 0,
+           "max_depth": 0, "max_level_counter": 0, "max_events": 0, "grown_twice_or_more": 0, "by_shape": {}}
     dead = {(tag, i): info for (tag, i, info) in deaths}
     for L in LIMITS:
         tag = "L%d" % L
@@ -542,7 +663,7 @@ def check_state(ctx, state_cases, model, state_res, deaths):
             nev = sum(1 for o in c["ops"] if o[0] == "a")
             ctx.count_case(c, nontrivial=nev > 0, kind="state:L=%d:cap%s:%s" % (
                 L, "<=L" if c["cap"] <= L else ("<=2L" if c["cap"] <= 2 * L else ">2L"),
-                "nk=%d" % c["nk"]))
+                ("volume-" + c["vol"]) if "vol" in c else "nk=%d" % c["nk"]))
             m_obs, m_fault, m_final = model_obs(model[L][i])
             r = state_res[tag][i]
             if (tag, i) in dead:
@@ -578,6 +699,22 @@ def check_state(ctx, state_cases, model, state_res, deaths):
             else:
                 if m_final != r["final"]:
                     bad_corr.append((c, "final live entries differ: model %s implementation %s" % (m_final[:8], r["final"][:8])))
+                region = proved_region(c) or []
+                if "C04_acc_total_volume" in region or "C04_acc_total_few_keys" in region:
+                    # the strengthened invariant, evaluated on the implementation's own trace
+                    problem, maxd, maxc = volume_invariant(c, r["obs"])
+                    vol["pure_runs_in_volume_region"] += 1
+                    vol["beyond_C04_acc_total"] += "C04_acc_total" not in region
+                    vol["few_keys_region"] += "C04_acc_total_few_keys" in region
+                    vol["invariant_checked_ops"] += len(r["obs"])
+                    vol["max_depth"], vol["max_level_counter"] = max(vol["max_depth"], maxd), max(vol["max_level_counter"], maxc)
+                    vol["max_events"] = max(vol["max_events"], nev)
+                    vol["grown_twice_or_more"] += len({ob[2] for ob in r["obs"]}) >= 3
+                    if "vol" in c:
+                        vol["by_shape"][c["vol"]] = vol["by_shape"].get(c["vol"], 0) + 1
+                    if problem:
+                        bad_corr.append((c, "the invariant VInv of Proofs/K01_CooAcc_volume.v (level counter <= 4*(F+1), "
+                                            "limit*F <= 2*#events) does not hold on the implementation's trace " + problem))
     failures.sort(key=lambda f: f[0])          # the shortest failing op sequences first
     for (_, L, c, problems, final) in failures:
         ctx.report("accumulator loses/duplicates/mis-credits events at COO_QUICKSORT_LIMIT=%d, capacity %d, %d ops: %s"
@@ -586,6 +723,7 @@ def check_state(ctx, state_cases, model, state_res, deaths):
     ctx.coverage["correspondence"] = {"model": "Model/K01_CooAcc.v via vm_compute", "cases": n_cmp, "ops_compared": n_ops,
                                       "disagreements": len(bad_corr), "limits": LIMITS}
     ctx.coverage["traces_validated_against_impl"] = n_cmp
+    ctx.coverage["volume"] = vol
     if bad_corr and not any(v["found_input"] for v in ctx.violations):
         c, what = bad_corr[0]
         ctx.report("model K01_CooAcc and coo_utils.py disagree (no property-level failure found): " + what,
